@@ -2,6 +2,7 @@ package an
 
 import (
 	"fmt"
+	"sort"
 	"strings"
 
 	"golang.org/x/tools/go/ssa"
@@ -163,6 +164,24 @@ func c05Raw(p *Prog, r *Report, R string, rels []string) {
 		r.Check(len(st) == 1, R, rel+"/strips-one-word", st.Pos(p), "Header = Header[4:]", "SendMsg does not strip exactly the 4-byte pipe id from the header")
 		if len(idc) == 1 && len(st) == 1 {
 			r.Check(InstrDominates(idc[0].In, st[0].In), R, rel+"/id-read-before-strip", st.Pos(p), "id read before the strip", "the id is read after the header was stripped (reads the next hop's word)")
+		}
+		// the only thing a reply's header has to satisfy is that it holds the word to route by:
+		// every condition on the header (or on the hop limit) that decides between queueing
+		// and discarding is `len(Header) >= 4`
+		{
+			var extra []string
+			for _, e := range append(sm.Ev("call", "mangos.(*Message).Free"), sm.Ev("select-send", "")...) {
+				for _, g := range e.Guard {
+					if g == "len(arg1.Header) < 4" || g == "len(arg1.Header) >= 4" {
+						continue
+					}
+					if strings.Contains(g, "len(arg1.Header)") || strings.Contains(g, ".ttl") || strings.Contains(g, "len(arg1.Body)") {
+						extra = append(extra, g)
+					}
+				}
+			}
+			sort.Strings(extra)
+			r.Check(len(extra) == 0, R, rel+"/reply-size-conditions-exact", sm.Pos(), "a reply is queued or discarded on no condition on its header or body other than len(Header) >= 4", "a reply is queued or discarded depending on "+strings.Join(nonEmpty(extra), ", ")+": the reply path applies no hop limit and no size rule of its own (a request accepted at the hop limit has one more header word on its way back than it had on arrival), so such replies never reach the client that asked")
 		}
 		hit := "recv.pipes[" + idd + "]#1"
 		snd := sm.Ev("select-send", "")
